@@ -480,10 +480,23 @@ class B:
 
 
 def where(c, a, b):
-    """ite on scalars"""
+    """ite on scalars; a condition that the assumptions decide is resolved (checked by the solver)
+    so that guards such as clamp_min(1e-12) do not stay in the terms"""
     if isinstance(c, B):
         if isinstance(c.term, bool):
             return to_S(a) if c.term else to_S(b)
+        if _CTX and getattr(_CTX[-1], "resolve_ite", True):
+            cx = _CTX[-1]
+            key = c.term.get_id()
+            if key not in cx.ite_cache:
+                verdict = None
+                if cx.check([z3.Not(c.term)], timeout_ms=1500) == "unsat":
+                    verdict = True
+                elif cx.check([c.term], timeout_ms=1500) == "unsat":
+                    verdict = False
+                cx.ite_cache[key] = verdict
+            if cx.ite_cache[key] is not None:
+                return to_S(a) if cx.ite_cache[key] else to_S(b)
         a, b = to_S(a), to_S(b)
         return S(z3.If(c.term, _z(a.re), _z(b.re)),
                  Fraction(0) if (a.is_real and b.is_real) else z3.If(c.term, _z(a.im), _z(b.im)))
@@ -510,6 +523,8 @@ class Ctx:
         self.max_paths = 64
         self.sqrt_cache = {}
         self.sqrt_arg = {}                # id of a sqrt symbol -> its radicand
+        self.opaque = {}                  # id of an angle term -> its opaque (cos, sin) symbols
+        self.ite_cache = {}
 
     def __enter__(self):
         _CTX.append(self)
@@ -640,7 +655,28 @@ class Ctx:
         return c if which == "cos" else s
 
     # ---- phasor algebra: cos/sin of an integer combination of angle atoms (+ a constant)
+    def opaque_angle(self, theta: S):
+        """cos/sin of an arbitrary real term: a fresh unit vector per distinct term (sound for unsat:
+        relations between different angles are forgotten)"""
+        t = _z(theta.re)
+        key = t.get_id()
+        if key not in self.opaque:
+            self.n_fresh += 1
+            c, s = z3.Real(f"_cos{self.n_fresh}"), z3.Real(f"_sin{self.n_fresh}")
+            self.side.append(c * c + s * s == 1)
+            self.defs.append((c, "cos_of", t))
+            self.defs.append((s, "sin_of", t))
+            self.opaque[key] = (c, s)
+        c, s = self.opaque[key]
+        return S(c), S(s)
+
     def cos_sin(self, theta: S):
+        try:
+            return self._cos_sin_atoms(theta)
+        except Unsupported:
+            return self.opaque_angle(theta)
+
+    def _cos_sin_atoms(self, theta: S):
         lin, const = linear_form(_z(theta.re))
         c_tot, s_tot = S(Fraction(1)), S(Fraction(0))
         if const != 0:
